@@ -21,7 +21,8 @@ from checks import c03
 ID = "C20"
 RULE = ("Pairs (A, B) from a pool: same configuration; differing only in RELATIVE_BASE / PREFER_* / TIMEZONE; differing in language "
         "and date order (DMY/MDY/YMD and 'tl', which has no order of its own) with ambiguous numeric dates and equal settings dicts; "
-        "differing in SKIP_TOKENS / NORMALIZE for the same language; parse vs search_dates; explicit DATE_ORDER vs locale order. "
+        "differing in SKIP_TOKENS / NORMALIZE for the same language; parse vs search_dates; explicit DATE_ORDER vs locale order; a call that ends on an internal "
+        "error path (range-end overflow, non-existent day) vs an ordinary call with the same settings dict and another date order. "
         "Schedules: A is preempted at its k-th executed library line, B runs to completion, A resumes; k = the first occurrence of "
         "every distinct (file, line, calling context of depth 3) A executes (enumerated) plus Hypothesis-drawn k; both directions; start state warm (both calls "
         "made once before) or cold (forked from a process that only imported the library). Points where library code is called back "
@@ -31,7 +32,7 @@ RULE = ("Pairs (A, B) from a pool: same configuration; differing only in RELATIV
         "that already read or wrote shared state); distinct on (pair, file, line).")
 ASSUMPTIONS = ["one preemption per schedule, B to completion (the property's schedule class); schedules with two or more preemptions are not explored",
                "frozen clock", "results alone are taken in a forked child from the same start state; pairs whose sequential orders disagree are C03's subject and skipped"]
-ESSENTIAL = ["pair:zone-vs-other", "pair:formats-vs-plain", "pair:same-config", "pair:differ-base-or-prefs", "pair:differ-language-order", "pair:differ-skip-normalize", "pair:parse-vs-search",
+ESSENTIAL = ["pair:error-path", "pair:zone-vs-other", "pair:formats-vs-plain", "pair:same-config", "pair:differ-base-or-prefs", "pair:differ-language-order", "pair:differ-skip-normalize", "pair:parse-vs-search",
              "start:warm", "start:cold", "preempted-in-library", "direction:AB", "direction:BA"]
 
 NOW = dt.datetime(2015, 6, 15, 10, 30)
@@ -72,6 +73,12 @@ PAIRS = [
     ("formats-vs-plain", ["parse", "Dienstag; 3. März 2015", ["%A; %d. %B %Y"], ["de"], None, None, None], ["parse", "3 März 2015 14:05", None, ["de"], None, None, None]),
     ("formats-vs-plain", ["parse", "2015|enero|12", ["%Y|%B|%d"], ["es"], None, None, {"PREFER_DATES_FROM": "past"}],
      ["parse", "12 enero 2015", None, ["es"], None, None, {"PREFER_DATES_FROM": "past"}]),
+    # one call ends on an internal error path (a date at the end of the range that overflows during zone arithmetic, a day that
+    # does not exist) while the other, with the same settings dict and another date order, is in flight: whatever the error
+    # path forgets to undo on shared objects is visible to the other call
+    ("error-path", ["parse", "02/03/2020 10:00", None, ["en"], None, None, {"TIMEZONE": "UTC", "TO_TIMEZONE": "Asia/Tokyo"}],
+     ["parse", "31/12/9999 23:00", None, ["fr"], None, None, {"TIMEZONE": "UTC", "TO_TIMEZONE": "Asia/Tokyo"}]),
+    ("error-path", ["parse", "02/03/2020 10:00", None, ["en"], None, None, dict(_S_EQ)], ["parse", "31/02/2020 10:00", None, ["fr"], None, None, dict(_S_EQ)]),
 ]
 
 
